@@ -22,6 +22,17 @@
 #include <fcppt/bit/shift_count.hpp>
 #include <fcppt/bit/shifted_mask.hpp>
 #include <fcppt/bit/test.hpp>
+#include <fcppt/literal.hpp>
+#include <fcppt/bit/mask_c.hpp>
+#include <fcppt/cast/enum_to_int.hpp>
+#include <fcppt/cast/enum_to_underlying.hpp>
+#include <fcppt/cast/int_to_enum.hpp>
+#include <fcppt/cast/promote_int.hpp>
+#include <fcppt/cast/safe_numeric.hpp>
+#include <fcppt/cast/size.hpp>
+#include <fcppt/cast/to_signed.hpp>
+#include <fcppt/cast/to_uint_ptr.hpp>
+#include <fcppt/cast/to_unsigned.hpp>
 #include <fcppt/cast/truncation_check.hpp>
 #include <fcppt/enum/from_int.hpp>
 #include <fcppt/math/ceil_div.hpp>
@@ -567,7 +578,7 @@ template <bin F, typename T> void binary(config const &cfg, vj::Rng &rng)
   {
     // 16-bit (4.3e9 pairs per function are beyond what TLC can judge):
     //   quick:    (lattice + 256 random) x (lattice + 64 random)
-    //   thorough: lattice x every right operand; every left operand x a window of 64 consecutive right
+    //   thorough: (lattice + every 251st left operand) x every right operand; every left operand x a window of 64 consecutive right
     //             operands whose start rotates through the whole range; every left operand x a core
     //             set of right operands (0, +-1, +-2, +-3, min, min+1, max, max-1, +-255, +-256, +-257)
     std::vector<long long> const lat = as_ll(lattice<T>(true));
@@ -581,7 +592,12 @@ template <bin F, typename T> void binary(config const &cfg, vj::Rng &rng)
     }
     else
     {
-      for (long long const a : lat)
+      // full rows (every right operand): the lattice and every 251st left operand (offset by the seed).
+      // Measured: TLC judges ~0.2 M results per CPU-second (5 us per result incl. JSON), so all 4.3e9 pairs of one
+      // function x type would need ~6 CPU-hours and 9 GB of records - see docs/notes_C06.md.
+      std::set<long long> full(lat.begin(), lat.end());
+      for (long long a = lo<T>() + static_cast<long long>(cfg.seed % 251U); a <= hi<T>(); a += 251) full.insert(a);
+      for (long long const a : full)
         for (long long b0 = lo<T>(); b0 <= hi<T>(); b0 += row_len)
           binary_rows<F, T>(a, a, b0, b0 + row_len - 1);
       std::set<long long> core_set{0, lo<T>(), lo<T>() + 1, hi<T>(), hi<T>() - 1};
@@ -713,6 +729,88 @@ inline void interval_all()
       }
 }
 
+// ---- value preserving conversions: cast::size, to_signed, to_unsigned, promote_int, safe_numeric, fcppt::literal
+// (extension round).  Rows for 8/16-bit sources (every value), wide records for 32/64-bit sources (lattice + random).
+template <typename S, typename Fn> void conv_one(char const *f, char const *D, config const &cfg, vj::Rng &rng, Fn const &fn)
+{
+  if constexpr (narrow<S>)
+    unary_rows<S>(f, tname<S>(), D, 0, lo<S>(), hi<S>(), fn);
+  else
+    for (S const v : operands<S>(rng, true, cfg.tier == 0 ? 48U : 1500U))
+      wide::rec(f, tname<S>(), D, 0, 0, to_z(v), Z{false, 0}, Z{false, 0}, [&fn, v] { return fn(v); });
+}
+template <typename D, typename S> void conv_pair(config const &cfg, vj::Rng &rng)
+{
+  if constexpr (std::is_signed_v<D> == std::is_signed_v<S>)
+  {
+    conv_one<S>("cast_size", tname<D>(), cfg, rng, [](S const v) { return fcppt::cast::size<D>(v); });
+    if constexpr (sizeof(D) >= sizeof(S))
+      conv_one<S>("safe_numeric", tname<D>(), cfg, rng, [](S const v) { return fcppt::cast::safe_numeric<D>(v); });
+  }
+  conv_one<S>("literal", tname<D>(), cfg, rng, [](S const v) { return fcppt::literal<D>(S{v}); });
+}
+template <typename S> void conv_source(config const &cfg, vj::Rng &rng)
+{
+  conv_pair<i8, S>(cfg, rng); conv_pair<u8, S>(cfg, rng); conv_pair<i16, S>(cfg, rng); conv_pair<u16, S>(cfg, rng);
+  conv_pair<i32, S>(cfg, rng); conv_pair<u32, S>(cfg, rng); conv_pair<i64, S>(cfg, rng); conv_pair<u64, S>(cfg, rng);
+  if constexpr (std::is_unsigned_v<S>)
+    conv_one<S>("to_signed", tname<std::make_signed_t<S>>(), cfg, rng, [](S const v) { return fcppt::cast::to_signed(v); });
+  else
+    conv_one<S>("to_unsigned", tname<std::make_unsigned_t<S>>(), cfg, rng, [](S const v) { return fcppt::cast::to_unsigned(v); });
+  conv_one<S>("promote_int", tname<fcppt::cast::promote_int_type<S>>(), cfg, rng, [](S const v) { return fcppt::cast::promote_int(v); });
+}
+
+// ---- enum casts: enums with a fixed underlying type can hold every value of that type
+enum class ce_i8 : std::int8_t { zero, fcppt_maximum = zero };
+enum class ce_u8 : std::uint8_t { zero, fcppt_maximum = zero };
+enum class ce_i16 : std::int16_t { zero, fcppt_maximum = zero };
+enum class ce_u16 : std::uint16_t { zero, fcppt_maximum = zero };
+template <typename E, typename D> void enum_to_int_pair()
+{
+  using U = std::underlying_type_t<E>;
+  unary_rows<U>("enum_to_int", tname<U>(), tname<D>(), 0, lo<U>(), hi<U>(), [](U const v) { return fcppt::cast::enum_to_int<D>(static_cast<E>(v)); });
+}
+template <typename E, typename S> void int_to_enum_pair()
+{
+  using U = std::underlying_type_t<E>;
+  // the enum is observed through cast::enum_to_underlying ("This cast is safe")
+  unary_rows<S>("int_to_enum", tname<S>(), tname<U>(), 0, lo<S>(), hi<S>(),
+                [](S const v) { return fcppt::cast::enum_to_underlying(fcppt::cast::int_to_enum<E>(v)); });
+}
+template <typename E> void enum_casts()
+{
+  using U = std::underlying_type_t<E>;
+  unary_rows<U>("enum_to_underlying", tname<U>(), tname<U>(), 0, lo<U>(), hi<U>(), [](U const v) { return fcppt::cast::enum_to_underlying(static_cast<E>(v)); });
+  enum_to_int_pair<E, i8>(); enum_to_int_pair<E, u8>(); enum_to_int_pair<E, i16>(); enum_to_int_pair<E, u16>();
+  enum_to_int_pair<E, i32>(); enum_to_int_pair<E, u32>(); enum_to_int_pair<E, i64>(); enum_to_int_pair<E, u64>();
+  int_to_enum_pair<E, i8>(); int_to_enum_pair<E, u8>(); int_to_enum_pair<E, i16>(); int_to_enum_pair<E, u16>();
+}
+
+// ---- bit::mask_c (a constant mask holds its constant) and cast::to_uint_ptr (equal exactly for the same object)
+template <typename T, T M> void mask_c_one()
+{
+  std::vector<long long> const xs{static_cast<long long>(M)};
+  row r;
+  r.begin("mask_c", tname<T>(), tname<T>(), 0, 0, 0, 0, 0, &xs);
+  r.call(static_cast<long long>(M), [] { return fcppt::bit::mask_c<T, M>().get(); });
+  r.end();
+}
+inline void misc_all()
+{
+  mask_c_one<u8, 0>(); mask_c_one<u8, 1>(); mask_c_one<u8, 0x81>(); mask_c_one<u8, 255>();
+  mask_c_one<i8, -128>(); mask_c_one<i8, -1>(); mask_c_one<i8, 127>();
+  mask_c_one<u16, 0x8001>(); mask_c_one<u16, 65535>(); mask_c_one<i16, -32768>(); mask_c_one<i16, 32767>();
+  static int cells[6] = {0, 0, 0, 0, 0, 0};
+  for (int i = 0; i < 6; ++i)
+  {
+    row r;
+    r.begin("to_uint_ptr", "i32", "u64", 0, i, 0, 0, 0, nullptr);
+    for (int j = 0; j < 6; ++j)
+      r.call(j, [i, j] { return fcppt::cast::to_uint_ptr(&cells[i]) == fcppt::cast::to_uint_ptr(&cells[j]); });
+    r.end();
+  }
+}
+
 // ---------------------------------------------------------------- sections
 inline std::vector<std::string> sections()
 {
@@ -721,7 +819,8 @@ inline std::vector<std::string> sections()
           "log2_narrow", "log2_u32", "log2_u64", "is_power_of_2", "next_power_of_2",
           "div_8", "div_16", "div_32", "div_64", "mod", "diff_8", "diff_16", "diff_wide", "bit_test",
           "ceil_div", "ceil_div_grid", "ceil_div_signed", "ceil_div_signed_grid", "clamp_8", "clamp_16", "clamp_wide",
-          "power_of_2", "interval_distance"};
+          "power_of_2", "interval_distance",
+          "conv_8", "conv_16", "conv_32", "conv_64", "enum_casts", "bit_test_signed", "misc"};
 }
 
 inline bool run_section(std::string const &s, config const &cfg)
@@ -762,6 +861,13 @@ inline bool run_section(std::string const &s, config const &cfg)
   else if (s == "clamp_wide") { clamp_all<i32>(cfg, rng); clamp_all<u32>(cfg, rng); clamp_all<i64>(cfg, rng); clamp_all<u64>(cfg, rng); }
   else if (s == "power_of_2") { pow2_all<i8>(); pow2_all<u8>(); pow2_all<i16>(); pow2_all<u16>(); pow2_all<i32>(); pow2_all<u32>(); pow2_all<i64>(); pow2_all<u64>(); }
   else if (s == "interval_distance") interval_all();
+  else if (s == "conv_8") { conv_source<i8>(cfg, rng); conv_source<u8>(cfg, rng); }
+  else if (s == "conv_16") { conv_source<i16>(cfg, rng); conv_source<u16>(cfg, rng); }
+  else if (s == "conv_32") { conv_source<i32>(cfg, rng); conv_source<u32>(cfg, rng); }
+  else if (s == "conv_64") { conv_source<i64>(cfg, rng); conv_source<u64>(cfg, rng); }
+  else if (s == "enum_casts") { enum_casts<ce_i8>(); enum_casts<ce_u8>(); enum_casts<ce_i16>(); enum_casts<ce_u16>(); }
+  else if (s == "bit_test_signed") { binary<bin::bit_test, i8>(cfg, rng); binary<bin::bit_test, i16>(cfg, rng); }
+  else if (s == "misc") misc_all();
   else return false;
   return true;
 }
